@@ -2,7 +2,8 @@
 from .. import absmodel as A
 from .. import sim as S
 from .. import votor as V
-from . import c05
+from .. import pool as P
+from . import c05, c06
 
 
 def sims(ctx):
@@ -47,6 +48,12 @@ def run(ctx):
     # 2. code level, components: the real Votor takes exactly the spec's transitions
     V.run_model(ctx, "votor_handover", c05.HANDOVER, 7, 7 if ctx.tier == "quick" else 9,
                 sample=60000 if ctx.tier == "quick" else 600000)
+    # ... and the real pool raises safe-to-notar / safe-to-skip, certificates and parent-ready exactly
+    #     as the spec's pool does (these events drive the fallback votes and parent choices)
+    rel = lambda fp, fields: any(f.startswith("ev.") or f == "panic" for f in fields)
+    P.run_model(ctx, "pool_s2n", [2, 2, 1], 0, 7,
+                c06.scenarios(["notar", "skip", "sf"], ["notar", "ff"], sibling=["ff", "nf"]),
+                c06.INVS, rel, sample=(90000 if ctx.tier == "quick" else 1000000))
     # 3. code level, system: real nodes under adversarial schedules are behaviours of the abstract protocol
     for sc in sims(ctx):
         name = sc.pop("name")
